@@ -1182,6 +1182,10 @@ def solve(objfun, x0, h=None, lh=None, prox_uh=None, argsf=(), argsh=(), argspro
     if nruns - last_successful_run >= params("restarts.max_unsuccessful_restarts"):
         exit_info = ExitInformation(EXIT_SUCCESS, "Reached maximum number of unsuccessful restarts")
 
+    # Never report success with a non-finite objective (e.g. the sum of squares overflowed at every evaluated point)
+    if exit_info.flag == EXIT_SUCCESS and not np.isfinite(objmin):
+        exit_info = ExitInformation(EXIT_EVAL_ERROR, "Objective is not finite at the best point found")
+
     # Process final return values & package up
     exit_flag = exit_info.flag
     exit_msg = exit_info.message(with_stem=True)
